@@ -45,6 +45,8 @@ type Run struct {
 	Exhaustive bool
 	capNote    string
 	deadline   time.Time
+	collect    bool // sub-run inside a worker: violations are collected, nothing is printed or written
+	collected  []SubViolation
 }
 
 func VerifDir() string {
@@ -184,7 +186,7 @@ func (r *Run) matchFinding(sig string) *Finding {
 func (r *Run) Violation(sig string, replayCase any, detail string) {
 	r.mu.Lock()
 	defer r.mu.Unlock()
-	if f := r.matchFinding(sig); f != nil {
+	if f := r.matchFinding(sig); f != nil && !r.collect {
 		if !r.knownSeen[f.Signature] {
 			r.knownSeen[f.Signature] = true
 			fmt.Printf("KNOWN-FINDING: property=%s %s (%s)\n", r.ID, f.Signature, f.Description)
@@ -196,6 +198,12 @@ func (r *Run) Violation(sig string, replayCase any, detail string) {
 	}
 	r.violSigs[sig] = true
 	r.violations++
+	if r.collect {
+		if len(r.collected) < 25 {
+			r.collected = append(r.collected, SubViolation{sig, replayCase, detail})
+		}
+		return
+	}
 	if r.violations > 25 {
 		return // keep counting distinct signatures, stop writing artefacts
 	}
